@@ -425,8 +425,14 @@ func TimingScenario(t *Tape) *Scenario {
 	sc.GST = int64(sc.TPB) * t.Range(SScen, 0, 6)
 	sc.DropPM = pick(t, SScen, uint64(0), 0, 30, 100)
 	sc.DupPM = pick(t, SScen, uint64(0), 0, 30)
+	if t.Chance(SScen, 1, 6) {
+		// a zero-latency network (one tick of the injected clock): a response is handled at the
+		// very clock reading at which the request was sent
+		sc.LatBase, sc.LatJitter = 0, 0
+	}
 	sc.Delta = sc.LatBase + sc.LatJitter
 	sc.ClockSkew = t.Chance(SScen, 1, 2)
+	sc.ClockJumps = t.Chance(SScen, 1, 4) // the same steps in both runs of a pair
 	sc.ResetDelay = pick(t, SScen, int64(0), sc.LatBase, int64(sc.TPB)/4)
 	sc.MapOrder = int(t.Draw(SScen, 3))
 	sc.TxMissing = t.Chance(SScen, 1, 3)
